@@ -12,6 +12,26 @@ fn do_lift(ctx: &mut Ctx, c: &[BigInt], factors: &[Vec<BigInt>], p: &BigInt, e: 
     let fs: Vec<PZ> = factors.iter().map(|f| pz(f)).collect();
     let ans = run(|| show_polys(&lift_factorization::<BigInt>(p, e, &pc, &fs)));
     ctx.emit("pm.lift", &[show_pz(&pc), show_polys(&fs), p.to_string(), e.to_string()], ans);
+    // the same generic routine at i128 when every intermediate fits: (p^e)^2 * deg stays below 2^126
+    let pe = num::pow::pow(p.clone(), e as usize);
+    if pe.bits() <= 58 && pc.dat.iter().all(|x| x.bits() <= 58) && !fs.is_empty() {
+        do_lift_i128(ctx, &pc.dat, factors, p, e);
+    }
+}
+fn do_lift_i128(ctx: &mut Ctx, c: &[BigInt], factors: &[Vec<BigInt>], p: &BigInt, e: u32) {
+    use num::ToPrimitive;
+    use rust_number_theory::polynomial::Polynomial;
+    let conv = |v: &[BigInt]| Polynomial::from_raw(v.iter().map(|x| x.to_i128().unwrap()).collect::<Vec<i128>>());
+    let pc = conv(c);
+    let fs: Vec<Polynomial<i128>> = factors.iter().map(|f| conv(f)).collect();
+    let pp = p.to_i128().unwrap();
+    let ans = run(|| {
+        let r = lift_factorization::<i128>(&pp, e, &pc, &fs);
+        let back: Vec<PZ> = r.iter().map(|g| pz(&g.dat.iter().map(|x| BigInt::from(*x)).collect::<Vec<_>>())).collect();
+        show_polys(&back)
+    });
+    let fsz: Vec<PZ> = factors.iter().map(|f| pz(f)).collect();
+    ctx.emit("pm.lift.i128", &[show_pz(&pz(c)), show_polys(&fsz), p.to_string(), e.to_string()], ans);
 }
 
 /// `pm.hlift p q c a b u v` ⇒ `a1|b1|qr`: the single Hensel step (`hensel::hensel_lift`, reached through
@@ -60,7 +80,13 @@ pub fn replay(ctx: &mut Ctx, f: &[&str]) -> bool {
     match (f[0], f.len()) {
         ("pm.lift", 5) => {
             let fs = parse_mat(f[2]);
+            let n = ctx.lines.len();
             do_lift(ctx, &parse_ints(f[1]), &fs, &parse_int(f[3]), f[4].parse().expect("e"));
+            ctx.lines.truncate(n + 1);
+        }
+        ("pm.lift.i128", 5) => {
+            let fs = parse_mat(f[2]);
+            do_lift_i128(ctx, &parse_ints(f[1]), &fs, &parse_int(f[3]), f[4].parse().expect("e"));
         }
         _ => return false,
     }
